@@ -635,7 +635,15 @@ func (r *DRunner) RunCase(c *Case) error {
 				return e
 			}
 		}
-		// quiescence: nothing inside the relay and nothing new at the receivers for a while (gives up only after 8 s without any progress)
+		// quiescence: nothing inside the relay and nothing new at the receivers for a while (gives up only after 8 s without any progress).
+		// When nothing was cut and every send succeeded, every message is owed: a pause of the receiving side is not taken for the end
+		// before all of them have been counted (a loss still shows: the wait then ends at the no-progress deadline)
+		expected := 0
+		if c.Delay != "cut" {
+			for i, x := range prs {
+				expected += x.st.N - errs[i]
+			}
+		}
 		deadline := time.Now().Add(8 * time.Second)
 		last, stable := -1, 0
 		for time.Now().Before(deadline) {
@@ -647,7 +655,7 @@ func (r *DRunner) RunCase(c *Case) error {
 			rw.mu.Unlock()
 			if n == last && p.Relay.Idle() {
 				stable++
-				if stable >= 3 {
+				if stable >= 3 && n >= expected {
 					break
 				}
 			} else {
